@@ -33,6 +33,37 @@ CHECKS["C01"] = (MC,
     "Trusted: harness/concretize.py (content tables, validated per notebook with nbformat), harness/encode.py, TLC. "
     "Bounded/sampled input space; no proof.", "DESIGN.md §5 C01")
 
+MERGE_NOTE = ("Trusted: harness/concretize.py (inputs validated per notebook), harness/encode.py, TLC, spec/MergeFormat.tla as the "
+              "reading of docs/source/merging.rst. Bounded/sampled input and strategy space; no proof.")
+CHECKS["C03"] = (MC,
+    "TLC-enumerated edit-script triples (NotebookEdits.tla) merged by the real merger under every CLI strategy / mergetool / "
+    "each text-merge helper; TLC trace validation (MergeTrace.tla) with clause Completes",
+    "Each merge call return is one trace event; a raised exception is an event the specification rejects (Completes), with the "
+    "exception type and innermost nbdime frame as the identity of the failure. Triples come from TLC's exhaustive enumeration of "
+    "one edit per side over six base templates plus random walks; a core subset runs all 280 CLI strategy combinations + "
+    "mergetool; git merge-file / diff3 / built-in are selected through a private PATH.", MERGE_NOTE, "DESIGN.md §5 C03")
+CHECKS["C04"] = (MC,
+    "same events as C03; TLC clause ValidNb on the logged verdict of the JSON schema of the declared minor (no normalisation); "
+    "nbmerge --out files validated too",
+    "Every merged notebook of the C03 space (bases of minors 0/2/4/5, conflicts of every kind the edit actions produce) is "
+    "validated against the schema of the minor it declares, strictly (nbformat's validate() would silently add missing ids). "
+    "A subset goes through nbmerge --out and the file on disk is validated.", MERGE_NOTE, "DESIGN.md §5 C04")
+CHECKS["C05"] = (MC,
+    "TLC trace validation (MergeTrace.tla: LawHolds, Symmetric with the carve-out SamePositionInsert computed by the spec) of "
+    "notebook merges for (b,b,b),(b,X,b),(b,b,X),(b,X,X) and both role orders; exhaustive triples of the TLC-enumerated generic "
+    "JSON universe (DiffModel.tla) through decide_merge/apply_decisions",
+    "The four laws are clauses of the merge contract evaluated by TLC on every event; X ranges over the TLC-enumerated edit "
+    "scripts, strategies are sampled from all 281; symmetry events carry both role orders; generic JSON is exhaustive over "
+    "all triples of short lists/objects/strings of the bounded universe.", MERGE_NOTE, "DESIGN.md §5 C05")
+CHECKS["C09"] = (MC,
+    "TLC trace validation (MergeTrace.tla) with the specification's own ApplyDecisions (MergeFormat.tla): AppliesToMerged, "
+    "AllLocalIsLocal, AllRemoteIsRemote, OrderedOK, SamePathContiguous, DecisionSchemaOK (+ published schema via jsonschema), "
+    "DecisionPlainJSON",
+    "The decision format has an explicit TLA+ semantics independent of nbdime's applier. For every merge event TLC re-applies "
+    "the decisions to base and compares with the merged notebook; under 'mergetool' it relabels every decision to local / "
+    "remote and compares with that notebook; ordering, contiguity, schema and plain-JSON clauses are evaluated on every list.",
+    MERGE_NOTE, "DESIGN.md §5 C09")
+
 NOT_YET = {}
 
 PROPS = [json.loads(l)["id"] for l in open(os.path.join(VERIF, "properties.jsonl"))]
